@@ -20,9 +20,9 @@ from . import common
 LEVEL = "exploration"
 
 # variables include names that mean something to Python, NumPy or SymPy (all are plain NAME tokens)
-PRE = ("name t\nversion 1.0\n\nint n = 3\nfloat x = 0.25\nfloat e = 0.5\nint tau = 3\nfloat inf = 0.75\nfloat nan = 1.5\nfloat E = 2.5\nfloat I = -1.25\n"
+PRE = ("name t\nversion 1.0\n\nint n = 3\nfloat x = 0.25\nfloat e = 0.5\nint tau = 3\nfloat inf = 0.75\nfloat nan = 1.5\nfloat E = 2.5\nfloat I = -1.25\nfloat q1x = 0.5\nint q2_n = 3\ncomplex q0a = 1-2j\nfloat pix = 1.5\n"
        "float array A =\n    1.5, 2.5\n    -3.0, 4.25\n")
-ENV = {"n": 3, "x": 0.25, "e": 0.5, "tau": 3, "inf": 0.75, "nan": 1.5, "E": 2.5, "I": -1.25}
+ENV = {"n": 3, "x": 0.25, "e": 0.5, "tau": 3, "inf": 0.75, "nan": 1.5, "E": 2.5, "I": -1.25, "q1x": 0.5, "q2_n": 3, "q0a": 1 - 2j, "pix": 1.5}
 ARR = {"A": [1.5, 2.5, -3.0, 4.25]}
 FUNCS = list(denote.FN)
 BINOPS = ["+", "-", "*", "/", "**"]
@@ -510,14 +510,14 @@ def run(ctx):
     V.merge(vr)
     bounds.append({"family": "boundary literals (integers around 2**31..2**63-1, doubles at the range edges) and exact integer arithmetic on them", "token_strings": len(bitems), "in_domain_checked": st.get("checked", 0)})
     # (b-names) variables whose names mean something to the host language: e, tau, inf, nan, E, I
-    named = [["e"], ["tau"], ["inf"], ["nan"], ["E"], ["I"], ["2"], ["0.5"], ["A", "[", "tau", "-", "1", "]"]]
+    named = [["e"], ["tau"], ["inf"], ["nan"], ["E"], ["I"], ["q1x"], ["q2_n"], ["q0a"], ["pix"], ["2"], ["0.5"], ["A", "[", "tau", "-", "1", "]"], ["A", "[", "q2_n", "]"]]
     nitems = [(t, True) for N in (1, 2) for t in gen(N, named, un1, BINOPS, 1, FUNCS[:1] + f_q[:1])]
     nitems = common.shard(nitems, ctx.seed)
     for r in pool.pmap(_prep, [nitems[i:i + 1000] for i in range(0, len(nitems), 1000)], chunk=1, timeout=1800):
         st, vr = r
         stats.update(st)
         V.merge(vr)
-    bounds.append({"family": "N<=2 over variables named e, tau, inf, nan, E, I (and 2, 0.5, A[tau-1]), optional '-', 1 span, 2 functions, also without blanks", "token_strings": len(nitems)})
+    bounds.append({"family": "N<=2 over variables named e, tau, inf, nan, E, I, q1x, q2_n, q0a, pix (and 2, 0.5, A[tau-1], A[q2_n]), optional '-', 1 span, 2 functions, also without blanks", "token_strings": len(nitems)})
     # (b-chains) additive chains whose terms differ widely in size: + and - associate to the left, and the rounding
     # model of the tolerance (1e-12 x the largest *result of an operation* on the way) is tight where early terms cancel
     terms = [["1"], ["1e16"], ["1e-17"], ["0.1"], ["0.3"], ["3"], ["1e-7"]]
